@@ -36,6 +36,7 @@ func runC08(l *core.Ledger) {
 	l.Rule("C08-B1", "every blocking operation on the caller's goroutine of an entry point is a select with a case on Done() of the call's context, a capacity-bounded reply-channel send, or a short mutex acquisition")
 	l.Rule("C08-B2", "the same for the per-call goroutines started by the entry points, including deferred calls")
 	l.Rule("C08-B3", "sendMsg: req.ctx.Err() test dominates SendMsg; a watcher goroutine started before SendMsg selects on req.ctx.Done() and cancels the stream context; close(done) on every path after the go statement")
+	l.Rule("C08-B5", "every cycle of a reply loop through a receive of the reply channel passes a select with a case on the call context's Done()")
 	l.Rule("C08-B4", "RPCCall returns ctx.Err() of its own context parameter inside the ctx.Done() case")
 
 	eps := findEntryPoints(l, r, "C08-B1")
@@ -60,6 +61,37 @@ func runC08(l *core.Ledger) {
 		})
 	}
 	l.Floor("C08-B1", nops, 12, "blocking operations on call paths")
+	// B5: every cycle of a reply loop that receives a reply passes a select
+	// (blocking or polling) with a case on the call context's Done(): otherwise
+	// a steady supply of replies starves the context case
+	for _, rl := range findReplyLoops(l, r, "C08-B5") {
+		observes := func(n sx.Node) bool {
+			s, ok := n.Instr().(*ssa.Select)
+			if !ok {
+				return false
+			}
+			for _, st := range s.States {
+				if cv, isDone := isDoneOf(st.Chan); isDone && rl.ctxVal != nil && sameCtx(cv, rl.ctxVal) {
+					return true
+				}
+			}
+			return false
+		}
+		bad := false
+		for _, rp := range rl.recvs {
+			start := sx.NodeOf(rp.sel)
+			if observes(start) {
+				continue
+			}
+			if _, cyc := sx.Reach(start, func(n sx.Node) bool { return n == start }, sx.Query{BlockNode: observes}); cyc {
+				bad = true
+				l.Bad("C08-B5", rl.key+"/cycle", rp.sel.Pos(), "the reply loop can go around through a receive of the reply channel that does not also select on the call's context: while replies keep arriving (server streams, many nodes) the context's end is not observed and the call does not complete")
+			}
+		}
+		if !bad {
+			l.OK("C08-B5", rl.key+"/cycle", rl.sel.Pos(), "every cycle through a reply receive observes ctx.Done()")
+		}
+	}
 	c08B3(l, r)
 	c08B4(l, r, eps)
 }
